@@ -1342,6 +1342,138 @@ pub struct BPlusTree<F: VfsFile> {
 	durability: Durability,
 }
 
+/// Verification hook (C18): a walk over everything the file holds.
+#[cfg(feature = "verif-hooks")]
+#[derive(Debug, Default, Clone)]
+pub struct VerifAudit {
+	pub total_pages: u64,
+	pub free_page_count: u64,
+	pub node_pages: u64,
+	pub overflow_pages: u64,
+	pub trunk_pages: u64,
+	pub free_pages: u64,
+	/// pages met more than once by the walk (a page owned twice)
+	pub duplicates: u64,
+	pub height: u64,
+	/// keys per leaf, in tree order
+	pub leaf_sizes: Vec<usize>,
+	/// leaves in the order of the next-leaf chain equal the leaves in tree order
+	pub leaf_chain_ok: bool,
+	/// every separator lies between the subtrees it separates and keys are sorted inside nodes
+	pub order_ok: bool,
+}
+
+#[cfg(feature = "verif-hooks")]
+impl<F: VfsFile> BPlusTree<F> {
+	pub fn verif_audit(&mut self) -> Result<VerifAudit> {
+		use std::collections::HashSet;
+		let mut a = VerifAudit {
+			total_pages: self.header.total_pages,
+			free_page_count: self.header.free_page_count as u64,
+			leaf_chain_ok: true,
+			order_ok: true,
+			..Default::default()
+		};
+		let mut seen: HashSet<u64> = HashSet::new();
+		let mut mark = |off: u64, a: &mut VerifAudit| {
+			if !seen.insert(off) {
+				a.duplicates += 1;
+			}
+		};
+		// tree
+		let mut leaves: Vec<u64> = vec![];
+		let mut stack: Vec<(u64, u64, Option<Bytes>, Option<Bytes>)> = vec![(self.header.root_offset, 1, None, None)];
+		while let Some((off, depth, lo, hi)) = stack.pop() {
+			mark(off, &mut a);
+			a.node_pages += 1;
+			a.height = a.height.max(depth);
+			let node = self.read_node(off)?;
+			let chains: Vec<u64>;
+			match node.as_ref() {
+				NodeType::Internal(n) => {
+					chains = n.key_overflows.clone();
+					for w in n.keys.windows(2) {
+						if self.compare.compare(&w[0], &w[1]) != Ordering::Less {
+							a.order_ok = false;
+						}
+					}
+					for k in n.keys.iter() {
+						if lo.as_ref().is_some_and(|l| self.compare.compare(k, l) == Ordering::Less)
+							|| hi.as_ref().is_some_and(|h| self.compare.compare(k, h) != Ordering::Less)
+						{
+							a.order_ok = false;
+						}
+					}
+					// children are pushed right to left so that leaves come out in tree order
+					for (i, c) in n.children.iter().enumerate().rev() {
+						let clo = if i == 0 { lo.clone() } else { Some(n.keys[i - 1].clone()) };
+						let chi = if i < n.keys.len() { Some(n.keys[i].clone()) } else { hi.clone() };
+						stack.push((*c, depth + 1, clo, chi));
+					}
+				}
+				NodeType::Leaf(n) => {
+					chains = n.cell_overflows.clone();
+					leaves.push(off);
+					a.leaf_sizes.push(n.keys.len());
+					for w in n.keys.windows(2) {
+						if self.compare.compare(&w[0], &w[1]) != Ordering::Less {
+							a.order_ok = false;
+						}
+					}
+					for k in n.keys.iter() {
+						if lo.as_ref().is_some_and(|l| self.compare.compare(k, l) == Ordering::Less)
+							|| hi.as_ref().is_some_and(|h| self.compare.compare(k, h) != Ordering::Less)
+						{
+							a.order_ok = false;
+						}
+					}
+				}
+				NodeType::Overflow(_) => return Err(BPlusTreeError::InvalidOverflowChain(off)),
+			}
+			for c in chains {
+				let mut cur = c;
+				while cur != 0 {
+					mark(cur, &mut a);
+					a.overflow_pages += 1;
+					match self.read_node(cur)?.as_ref() {
+						NodeType::Overflow(o) => cur = o.next_overflow,
+						_ => return Err(BPlusTreeError::InvalidOverflowChain(cur)),
+					}
+				}
+			}
+		}
+		// leaf chain
+		let mut chain: Vec<u64> = vec![];
+		let mut cur = self.header.first_leaf_offset;
+		while cur != 0 && chain.len() <= leaves.len() {
+			chain.push(cur);
+			match self.read_node(cur)?.as_ref() {
+				NodeType::Leaf(l) => cur = l.next_leaf,
+				_ => {
+					a.leaf_chain_ok = false;
+					break;
+				}
+			}
+		}
+		if chain != leaves {
+			a.leaf_chain_ok = false;
+		}
+		// free list
+		let mut t = self.header.trunk_page_head;
+		while t != 0 {
+			mark(t, &mut a);
+			a.trunk_pages += 1;
+			let trunk = self.read_trunk_page(t)?;
+			for p in trunk.free_pages.iter() {
+				mark(*p as u64 * PAGE_SIZE as u64, &mut a);
+				a.free_pages += 1;
+			}
+			t = trunk.next_trunk;
+		}
+		Ok(a)
+	}
+}
+
 impl<F: VfsFile> Drop for BPlusTree<F> {
 	fn drop(&mut self) {
 		if let Err(e) = self.close() {
